@@ -73,7 +73,11 @@ def tail_case(draw):
             "r1": [draw(fl(0.2, 0.95)) for _ in range(n)], "seed": draw(st.integers(0, 2 ** 31)),
             "nan_pre_tail": method == "peak" and draw(st.booleans()),
             "convention": draw(st.sampled_from(["going_to_counter_clockwise_east", "coming_from_clockwise_north"])),
-            "params": draw(params()), "scale": draw(st.sampled_from([2.0, 0.5, 3.0]))}
+            "params": draw(params()), "scale": draw(st.sampled_from([2.0, 0.5, 3.0])),
+            # per member: where its c*f^-4 range starts and how long it is (None: to the end of the grid); outside the
+            # range E*f^4 is noise below c, so each member has its own flattest window
+            "starts": [draw(st.integers(2, j0)) for _ in range(n)],
+            "lengths": [draw(st.one_of(st.none(), st.integers(nb, nb + 3))) for _ in range(n)]}
 
 
 def build_tail(c, scale=1.0):
@@ -88,13 +92,16 @@ def build_tail(c, scale=1.0):
     for i in range(n):
         tail = c["c"][i] * f ** -4.0
         pre = rng.uniform(0.0, 0.9, nf) * c["c"][i] * f ** -4.0
-        e[i] = np.where(np.arange(nf) >= c["j0"], tail, pre)
+        start = c["starts"][i] if "starts" in c else c["j0"]
+        length = c["lengths"][i] if "lengths" in c else None
+        inside = (np.arange(nf) >= start) & (np.arange(nf) < (nf if length is None else start + length))
+        e[i] = np.where(inside, tail, pre)
         th = math.radians(c["theta"][i])
-        ang = np.where(np.arange(nf) >= c["j0"], th, rng.uniform(-np.pi, np.pi, nf))
+        ang = np.where(inside, th, rng.uniform(-np.pi, np.pi, nf))
         a1[i] = c["r1"][i] * np.cos(ang)
         b1[i] = c["r1"][i] * np.sin(ang)
-        if c["nan_pre_tail"] and c["j0"] > 1:
-            e[i, rng.integers(0, c["j0"])] = np.nan
+        if c["nan_pre_tail"] and start > 1:
+            e[i, rng.integers(0, start)] = np.nan
     sc = {"kind": "1d", "f": c["f"], "layout": c["layout"], "shape": list(shape), "values": "tail",
           "moment_kind": "tail", "e": (e * scale).reshape(-1).tolist(), "a1": a1.reshape(-1).tolist(),
           "b1": b1.reshape(-1).tolist(), "a2": np.zeros(n * nf).tolist(), "b2": np.zeros(n * nf).tolist(),
@@ -162,7 +169,8 @@ def run_tail(c):
     return {"nontrivial": nontriv, "classes": ["method_" + c["method"], "layout_" + c["layout"],
                                                 "convention_" + c["convention"].split("_")[0],
                                                 "default_params" if c["params"]["I"] == 2.5 else "custom_params"] +
-            (["nan_bins"] if c["nan_pre_tail"] else [])}
+            (["nan_bins"] if c["nan_pre_tail"] else []) +
+            (["members_with_different_f4_ranges"] if len(set(zip(c.get("starts", [0]), map(str, c.get("lengths", [0]))))) > 1 else [])}
 
 
 # ----------------------------------------------------------------------------- (b) peak method on random spectra
